@@ -46,6 +46,21 @@ Theorem C18_rrect_half_eq_ellipse : forall t a b p,
   rr_ellipse_contains t (S (a * 2) (b * 2)) p.
 Proof. exact rr_half_eq_ellipse. Qed.
 
+(* the corners are ellipse quadrants: contains() = inside the base rectangle and, for every corner box the point lies in,
+   inside the ellipse of twice the (confined) corner radius whose quadrant fills that box.  With the half-pixel band of the
+   ellipse test (ellipse part of C18) this is the band statement for rounded-rectangle corners. *)
+Theorem C18_rrect_corners_are_ellipse_quadrants : forall r p,
+  rr_ok r ->
+  rr_contains r p =
+  contains (rr_rect r) p &&
+  forallb (fun q => let e := corner_quadrant r q in negb (contains (eq_bbox e) p) || eq_contains e p) quadrants.
+Proof. exact rr_contains_quadrants. Qed.
+
+Theorem C18_rrect_quadrant_is_ellipse : forall t rad q p,
+  eq_contains (eq_new t rad q) p =
+  rr_ellipse_contains (quadrant_ellipse_top_left t rad q) (S (sw rad * 2) (sh rad * 2)) p.
+Proof. exact eq_contains_is_ellipse. Qed.
+
 (* non-vacuity: the input of the repaired defect h *)
 Example C18_rrect_nonvacuous :
   let c := CR (S 60 10) (S 50 0) (S 0 0) (S 0 9) in
